@@ -20,6 +20,7 @@ func init() {
 	}
 	register(&core.Rule{ID: "R-STOP-ORDER", Props: []string{"C03", "C04"}, Doc: "stopPipeline calls every component's Stop on every path, with the necessary precedences: stage Stops and source Stop before reactor.Stop, finisher.Stop before source Stop, preprocessor.Stop before seencheck.Close, reactor.Freeze before source Stop, log.Stop last", Run: ruleStopOrder})
 	register(&core.Rule{ID: "R-STAGE-STOP", Props: []string{"C03"}, Doc: "each Stop calls the component's cancel func before wg.Wait(); every goroutine started by Start is preceded by wg.Add and signals wg.Done on every exit", Run: ruleStageStop})
+	register(&core.Rule{ID: "R-CALLEE-WAKE", Props: []string{"C03"}, Doc: "blocking channel operations in module functions that a joined goroutine calls (transitively, static calls, any component): a select needs a Done arm on a context that is cancelled by the goroutine's own component's stop or by a function stopPipeline calls before it on every path (cancel functions paired with their contexts through context.WithCancel); plain sends/receives are local rendezvous or are discharged by the named C12/C14 rule", Run: ruleCalleeWake})
 	register(&core.Rule{ID: "R-CTX-SELECT", Props: []string{"C03"}, Doc: "in every goroutine a Stop waits for, each potentially blocking channel operation (plain send/receive, blocking select) has an arm on a context Done() channel, or falls under a derived exemption (ticker/timer channel, semaphore released by defer, consumer that outlives the sender, capacity argument)", Run: ruleCtxSelect})
 	register(&core.Rule{ID: "R-NIL-CLIENT", Props: []string{"C03"}, Doc: "archiver.Client / ClientWithProxy are created under complementary config.Proxy conditions; every dereference is dominated by a nil test of the same field, by the same config condition, or by the assignment itself", Run: ruleNilClient})
 	register(&core.Rule{ID: "R-WARC-CLOSE", Props: []string{"C03"}, Doc: "archiver.Stop: after cancel+wg.Wait every path to return calls Close() on each client field unless that field is nil, each Close preceded by that client's WaitGroup.Wait()", Run: ruleWarcClose})
@@ -1055,4 +1056,310 @@ func ruleErrChanDrain(r *core.Reporter) {
 			r.Violated("reader/"+f, "", "no goroutine drains %s.ErrChan until close", f)
 		}
 	}
+}
+
+// calleeClosure: module functions reachable from fn through static calls (not `go`), excluding fn itself.
+func calleeClosure(fn *ssa.Function, maxDepth int) map[*ssa.Function][]string {
+	out := map[*ssa.Function][]string{}
+	var walk func(f *ssa.Function, chain []string, d int)
+	walk = func(f *ssa.Function, chain []string, d int) {
+		if d > maxDepth {
+			return
+		}
+		for _, ff := range withAnon(f) {
+			allInstrs(ff, func(in ssa.Instruction) {
+				var cc *ssa.CallCommon
+				switch x := in.(type) {
+				case *ssa.Call:
+					cc = x.Common()
+				case *ssa.Defer:
+					cc = x.Common()
+				default:
+					return
+				}
+				cal := ir.CalleeOf(cc)
+				if cal == nil || !core.InModule(cal) || cal.Blocks == nil || cal == fn {
+					return
+				}
+				if _, seen := out[cal]; seen {
+					return
+				}
+				nc := append(append([]string{}, chain...), core.FuncName(cal))
+				out[cal] = nc
+				walk(cal, nc, d+1)
+			})
+		}
+	}
+	walk(fn, []string{core.FuncName(fn)}, 0)
+	return out
+}
+
+
+// cancelCallers maps a context field (type.field) to the module functions that invoke the cancel function
+// created together with it by context.WithCancel.
+func cancelCallers(p *core.Program) map[string][]*ssa.Function {
+	pair := map[string]string{} // cancel field -> ctx field
+	for _, fn := range p.ModFuncs {
+		allInstrs(fn, func(in ssa.Instruction) {
+			c, ok := in.(*ssa.Call)
+			if !ok || !ir.IsCallTo(c, "context.WithCancel", "context.WithTimeout", "context.WithDeadline") {
+				return
+			}
+			var ctxF, canF string
+			for _, rr := range ir.Referrers(c) {
+				e, isE := rr.(*ssa.Extract)
+				if !isE {
+					continue
+				}
+				for _, er := range ir.Referrers(e) {
+					st, isSt := er.(*ssa.Store)
+					if !isSt || st.Val != ssa.Value(e) {
+						continue
+					}
+					tn, f, okf := ir.FieldOf(st.Addr)
+					if !okf {
+						if g, isG := st.Addr.(*ssa.Global); isG {
+							tn, f, okf = g.Pkg.Pkg.Path(), g.Name(), true
+						}
+					}
+					if okf {
+						if e.Index == 0 {
+							ctxF = tn + "." + f
+						} else {
+							canF = tn + "." + f
+						}
+					}
+				}
+			}
+			if ctxF != "" && canF != "" {
+				pair[canF] = ctxF
+			}
+		})
+	}
+	out := map[string][]*ssa.Function{}
+	for _, fn := range p.ModFuncs {
+		allInstrs(fn, func(in ssa.Instruction) {
+			var cc *ssa.CallCommon
+			switch x := in.(type) {
+			case *ssa.Call:
+				cc = x.Common()
+			case *ssa.Defer:
+				cc = x.Common()
+			default:
+				return
+			}
+			if cc.IsInvoke() || ir.CalleeOf(cc) != nil {
+				return
+			}
+			u, ok := cc.Value.(*ssa.UnOp)
+			if !ok || u.Op != token.MUL {
+				return
+			}
+			key := ""
+			if tn, f, okf := ir.FieldOf(u.X); okf {
+				key = tn + "." + f
+			} else if g, isG := u.X.(*ssa.Global); isG {
+				key = g.Pkg.Pkg.Path() + "." + g.Name()
+			}
+			if ctxF, okp := pair[key]; okp {
+				top := fn
+				for top.Parent() != nil {
+					top = top.Parent()
+				}
+				out[ctxF] = append(out[ctxF], top)
+			}
+		})
+	}
+	return out
+}
+
+func ctxFieldKey(ctx ssa.Value) string {
+	if u, ok := ctx.(*ssa.UnOp); ok && u.Op == token.MUL {
+		if tn, f, okf := ir.FieldOf(u.X); okf {
+			return tn + "." + f
+		}
+		if g, isG := u.X.(*ssa.Global); isG {
+			return g.Pkg.Pkg.Path() + "." + g.Name()
+		}
+	}
+	return ""
+}
+
+// ruleCalleeWake: blocking channel operations in functions that a joined goroutine calls (possibly in another
+// component) must be woken no later than the moment the goroutine's own Stop starts waiting for it.
+func ruleCalleeWake(r *core.Reporter) {
+	p := r.P
+	sp := p.Func(rel(pkgCtl), "stopPipeline")
+	if sp == nil {
+		r.Undecided("controler.stopPipeline", "", "anchor not found")
+		return
+	}
+	cancels := cancelCallers(p)
+	callsTo := func(f *ssa.Function) func(ssa.Instruction) bool {
+		return func(in ssa.Instruction) bool {
+			c, ok := in.(*ssa.Call)
+			return ok && ir.CalleeOf(c.Common()) == f
+		}
+	}
+	callsIntoPkg := func(pk string) func(ssa.Instruction) bool {
+		return func(in ssa.Instruction) bool {
+			c, ok := in.(*ssa.Call)
+			if !ok {
+				return false
+			}
+			cal := ir.CalleeOf(c.Common())
+			return cal != nil && cal.Pkg != nil && cal.Pkg.Pkg.Path() == pk
+		}
+	}
+	// wakes(ctxKey, gpkg): the context is cancelled by the goroutine's own component's stop function, or by a
+	// function that stopPipeline calls before it enters that component on every path
+	wakes := func(ctxKey, gpkg string) (bool, string) {
+		cs := cancels[ctxKey]
+		if len(cs) == 0 {
+			return false, "nobody cancels " + ctxKey
+		}
+		for _, cf := range cs {
+			if cf.Pkg != nil && cf.Pkg.Pkg.Path() == gpkg {
+				return true, core.FuncName(cf) + " (the component's own stop)"
+			}
+			called := false
+			allInstrs(sp, func(in ssa.Instruction) {
+				if callsTo(cf)(in) {
+					called = true
+				}
+			})
+			if !called {
+				continue
+			}
+			if _, bad := ir.PathExists([]ir.Pt{ir.Entry(sp)}, ir.Opts{Stop: callsTo(cf)}, callsIntoPkg(gpkg)); !bad {
+				return true, core.FuncName(cf) + " (called by stopPipeline before the component is stopped)"
+			}
+		}
+		var names []string
+		for _, cf := range cs {
+			names = append(names, core.FuncName(cf))
+		}
+		return false, "it is cancelled only by " + strings.Join(names, ", ") + ", which stopPipeline calls after waiting for this goroutine"
+	}
+	// operations whose non-blocking nature is decided by another property's rules
+	elsewhere := map[string]string{
+		"recv " + pkgReactor + ".reactor.tokenPool": "a token is taken back only after LoadAndDelete reported the entry, whose creation put a token in (C12 R-REACT-INSERT/R-REACT-RELEASE)",
+		"send " + pkgReactor + ".reactor.input":     "input has the token pool's capacity and the send follows a token acquisition (C12 R-REACT-CAP/R-REACT-ACCEPT)",
+		"recv " + pkgPause + ".ControlChans.ResumeCh": "Resume's reads are answered by every subscriber's offer or by Unsubscribe closing the channel (C14 R-PAUSE-WORKER/R-UNSUB-SAFE)",
+	}
+	gs := waitedGoroutines(p)
+	ops := 0
+	seenKey := map[string]bool{}
+	for _, g := range gs {
+		gpkg := g.Pkg.Pkg.Path()
+		closure := calleeClosure(g, 6)
+		// the goroutine's own body takes part for the timing of its Done arms (R-CTX-SELECT decides the rest)
+		closure[g] = []string{core.FuncName(g)}
+		type unit struct {
+			f     *ssa.Function
+			chain []string
+		}
+		var units []unit
+		for cal, chain := range closure {
+			units = append(units, unit{cal, chain})
+			// closures handed to callbacks run on the caller's goroutine; `go` closures are separate goroutines
+			for _, a := range cal.AnonFuncs {
+				if _, called := closure[a]; !called && !isGoTarget(cal, a) {
+					units = append(units, unit{a, chain})
+				}
+			}
+		}
+		sort.Slice(units, func(i, j int) bool { return core.FuncName(units[i].f) < core.FuncName(units[j].f) })
+		for _, u := range units {
+			cal, chain := u.f, u.chain
+			for _, op := range blockingOps(cal) {
+				if cal == g || cal.Parent() == g {
+					if op.kind != "select" || !hasDoneArm(op.in.(*ssa.Select)) {
+						continue // decided by R-CTX-SELECT
+					}
+				}
+				ops++
+				key := core.FuncName(g) + "->" + core.FuncName(cal) + "/" + op.kind
+				if op.kind == "select" {
+					key += "@" + selKey(op.in.(*ssa.Select))
+				} else {
+					key += "@" + chanKey(op.ch)
+				}
+				if seenKey[key] {
+					continue
+				}
+				seenKey[key] = true
+				via := strings.Join(chain, " > ")
+				switch op.kind {
+				case "select":
+					sel := op.in.(*ssa.Select)
+					okArm, why := false, "no ctx.Done() arm"
+					allTime := true
+					for _, st := range sel.States {
+						if !(st.Dir == types.RecvOnly && isTickerField(st.Chan)) {
+							allTime = false
+						}
+						if st.Dir != types.RecvOnly {
+							continue
+						}
+						if c, isDone := ir.IsDoneChan(st.Chan); isDone {
+							ck := ctxFieldKey(c)
+							if ck == "" {
+								// a context handed in by the caller: the goroutine's own rule (R-CTX-SELECT) covers its origin
+								okArm, why = true, "context passed by the caller"
+								break
+							}
+							if w, reason := wakes(ck, gpkg); w {
+								okArm, why = true, ck+" cancelled by "+reason
+								break
+							} else {
+								why = reason
+							}
+						}
+					}
+					switch {
+					case okArm:
+						r.HeldAt(key, p.InstrPos(op.in), 1, "abandonable: %s", why)
+					case allTime || localStopArm(sel):
+						r.HeldAt(key, p.InstrPos(op.in), 1, "periodic or locally signalled")
+					default:
+						r.Violated(key, p.InstrPos(op.in), "blocking select reached from a goroutine that %s's stop waits for (%s) cannot be abandoned in time: %s", rel(gpkg), via, why)
+					}
+				default:
+					if localMakeChan(op.ch) != nil {
+						r.HeldAt(key, p.InstrPos(op.in), 1, "channel local to the function and the goroutines it starts")
+						continue
+					}
+					if _, isDone := ir.IsDoneChan(op.ch); isDone && op.kind == "recv" {
+						r.HeldAt(key, p.InstrPos(op.in), 1, "waits for cancellation itself")
+						continue
+					}
+					fk := ""
+					if u, ok := op.ch.(*ssa.UnOp); ok && u.Op == token.MUL {
+						if tn, f, okf := ir.FieldOf(u.X); okf {
+							fk = op.kind + " " + tn + "." + f
+						}
+					}
+					if why, ok := elsewhere[fk]; ok {
+						r.HeldAt(key, p.InstrPos(op.in), 1, "%s", why)
+						continue
+					}
+					r.Violated(key, p.InstrPos(op.in), "plain blocking %s on %s reached from a goroutine that %s's stop waits for (%s)", op.kind, ir.Path(op.ch), rel(gpkg), via)
+				}
+			}
+		}
+	}
+	r.Floor("blocking operations in callees of joined goroutines", ops, 8)
+}
+
+func isGoTarget(parent, a *ssa.Function) bool {
+	is := false
+	for _, f := range withAnon(parent) {
+		allInstrs(f, func(in ssa.Instruction) {
+			if g, ok := in.(*ssa.Go); ok && ir.CalleeOf(g.Common()) == a {
+				is = true
+			}
+		})
+	}
+	return is
 }
